@@ -22,7 +22,7 @@ META = {
 META['text'] += ' The SAVE actions are also aimed at character devices (LPT1:, SCRN:), whose file objects do not echo the requested file type.'
 
 ALPHA = b'QXZJKVWY'
-BASE_FILES = ('PROT.BAS', 'PLAIN.BAS', 'MRG.BAS', 'BL.BAS')
+BASE_FILES = ('PROT.BAS', 'PLAIN.BAS', 'MRG.BAS', 'BL.BAS', 'FL.BAS')
 VARS = ['A!', 'B%', 'S!', 'X!', 'Y!', 'Z!', 'P!', 'T$']
 
 
@@ -114,6 +114,10 @@ class World(object):
         s.ex('SAVE "PLAIN"')
         s.ex('DEF SEG=&HB800:BSAVE "BL",0,16:DEF SEG')
         s.ex('NEW')
+        # an image of one zero byte addressed at the protection flag (DS:1450), made while nothing is protected: BLOAD of it
+        # without an offset writes there (round-3 seeded change C16c left that form of BLOAD unguarded)
+        s.ex('DEF SEG:BSAVE "FL",1450,1')
+        s.ex('NEW')
         with open(os.path.join(self.mount, 'MRG.BAS'), 'wb') as f:
             f.write(b'15 REM merged line\r\n1000 REM another merged line\r\n\x1a')
         self.lpt_pos = 0
@@ -180,7 +184,7 @@ class World(object):
         elif op == 'Poke':
             t = b'POKE 1450,0' if arg == 'flag' else b'POKE %d,%d' % (cs + rng.randint(5, 30), rng.randint(0, 255))
         elif op == 'Bload':
-            t = rng.choice([b'BLOAD "BL"', b'DEF SEG=&HB800:BLOAD "BL",0'])
+            t = rng.choice([b'BLOAD "BL"', b'DEF SEG=&HB800:BLOAD "BL",0', b'BLOAD "FL"', b'BLOAD "FL"', b'DEF SEG:BLOAD "FL",1450'])
         elif op == 'ReadData':
             t = rng.choice([b'RESTORE:READ Q$:PRINT Q$', b'READ Q$,R$:PRINT R$;Q$'])
         elif op == 'LoadP':
